@@ -1,5 +1,6 @@
 import ZCV.Lemmas.Misc
 import ZCV.Lemmas.LoadSpec
+import ZCV.Lemmas.TextLoad
 import ZCV.Model.Conv
 namespace ZCV.Props.C01
 open ZCV ZCV.Cfg
@@ -60,5 +61,41 @@ theorem C01_nonconforming_rejected (conv : Conv) (s : Schema) (items : List Item
   | ok v =>
     have := (C01_accept_iff_conforms conv s items hs ht).mp ⟨v, hl⟩
     rw [hn] at this; cases this
+
+open ZCV.Conf in
+/-- **The same for configuration TEXT.**  For every text of any length (lines, `%define`s, `%include`s of any depth —
+    through the parser model with its generated patterns) that contains no `%import` and is loaded without overrides:
+    the loader returns a configuration iff the parser accepts the text and the tree it denotes conforms to the schema.
+    `hlow` (lower-casing is idempotent) is a fact about the generated Unicode table that the translator checks whenever
+    it writes the table. -/
+theorem C01_text_accept_iff_conforms (conv : Conv) (env : Env) (pkgs : Str → Pkg) (s : Schema) (url : Option Str)
+    (lines : List Str) (hs : schemaOK s = true) (hlow : ∀ x : Str, lower (lower x) = lower x)
+    (hkeys : ∀ p ∈ s.types, lower p.1 = p.1)
+    (hni : ∀ l ∈ lines, NoImportLine l) (hres : ∀ u ls, env.res u = some ls → ∀ l ∈ ls, NoImportLine l) :
+    (∃ r, load conv env pkgs s url lines [] = .ok r) ↔
+      ∃ items, treeOf env url lines = .ok items ∧ conforms conv s items = true := by
+  have h := load_eq_loadTree conv env pkgs s url lines hni hres
+  constructor
+  · rintro ⟨r, hr⟩
+    rw [hr] at h
+    cases ht : treeOf env url lines with
+    | error e => rw [ht] at h; simp [Except.toOption] at h
+    | ok items =>
+      rw [ht] at h
+      refine ⟨items, rfl, ?_⟩
+      have hc := treeOf_tyCanon env url lines s items hs hlow hkeys ht
+      simp only [Except.toOption, Option.map_some, Option.bind_some] at h
+      cases hl : loadTree conv s items with
+      | error e => rw [hl] at h; simp at h
+      | ok v => exact (C01_accept_iff_conforms conv s items hs hc).mp ⟨v, hl⟩
+  · rintro ⟨items, ht, hc⟩
+    have hcan := treeOf_tyCanon env url lines s items hs hlow hkeys ht
+    obtain ⟨v, hv⟩ := (C01_accept_iff_conforms conv s items hs hcan).mpr hc
+    rw [ht] at h
+    simp only [Except.toOption, Option.bind_some] at h
+    rw [hv] at h
+    cases hl : load conv env pkgs s url lines [] with
+    | ok r => exact ⟨r, rfl⟩
+    | error e => rw [hl] at h; simp at h
 
 end ZCV.Props.C01
